@@ -21,6 +21,11 @@ def dedupBy {α κ} [DecidableEq κ] (key : α → κ) : List α → List α
   | [] => []
   | x :: xs => x :: (dedupBy key xs).filter (fun y => key y ≠ key x)
 
+/-- no element occurs twice (executable) -/
+def nodupB {α} [BEq α] : List α → Bool
+  | [] => true
+  | x :: xs => !xs.contains x && nodupB xs
+
 /-- the tag table: distinct tags in order of first conversion; a tag's id is its index -/
 def tagTable (os : List Obj) : List Tag := dedupBy id (tagsOf os)
 
